@@ -153,11 +153,14 @@ def execute(ch, cfg):
     net.after_put = lambda a: occ("after-put")
     horizon = 10 ** 9 if mon is None else 4 * nmax + 3
     saved = random.uniform
+    saved_random = random.random
     random.uniform = fake_uniform
+    random.random = lambda: fake_uniform(0, 1)
     try:
         err = net.run(horizon, after_step=lambda: occ("after-step"))
     finally:
         random.uniform = saved
+        random.random = saved_random
     res.digest = (tuple(rec.dec), tuple((d.arr.i if d.arr else -1, d.t) for d in net.deps), err,
                   tuple((a.t, a.size) for a in net.arrs))
     res.ev("C09.noraise")
